@@ -17,6 +17,7 @@ transforms:
   retlocal   `return EXPR` -> `_mm_ret = EXPR; return _mm_ret`
   augassign  `x op= e` -> `x = x op e`
   isnot      `a is not b` -> `not a is b` (likewise not in, !=)
+  kwargs     positional arguments of self.<method>(...) calls become keyword arguments
 """
 import ast
 import os
@@ -117,6 +118,40 @@ class IsNot(ast.NodeTransformer):
         return n
 
 
+class KwArgs(ast.NodeTransformer):
+    """positional arguments of `self.m(...)` calls become keyword arguments when m is a method of the enclosing class
+    (plain parameters only; no *args/**kwargs; decorated methods other than staticmethod/classmethod excluded)"""
+    def __init__(self):
+        self.cls = []
+
+    def visit_ClassDef(self, n):
+        meths = {}
+        for b in n.body:
+            if isinstance(b, ast.FunctionDef) and not b.args.vararg and not b.args.kwarg and not b.args.posonlyargs:
+                decs = [ast.unparse(d) for d in b.decorator_list]
+                if any(d not in ("staticmethod", "classmethod") for d in decs):
+                    continue
+                params = [a.arg for a in b.args.args]
+                if "staticmethod" not in decs:
+                    params = params[1:]
+                meths[b.name] = params
+        self.cls.append(meths)
+        self.generic_visit(n)
+        self.cls.pop()
+        return n
+
+    def visit_Call(self, n):
+        self.generic_visit(n)
+        if self.cls and isinstance(n.func, ast.Attribute) and isinstance(n.func.value, ast.Name) and n.func.value.id == "self" \
+                and n.func.attr in self.cls[-1] and n.args and not any(isinstance(a, ast.Starred) for a in n.args) \
+                and not any(k.arg is None for k in n.keywords):
+            params = self.cls[-1][n.func.attr]
+            if len(n.args) <= len(params):
+                kws = [ast.keyword(arg=params[i], value=a) for i, a in enumerate(n.args)]
+                return ast.copy_location(ast.Call(func=n.func, args=[], keywords=kws + n.keywords), n)
+        return n
+
+
 def rename_locals(src: str, filename: str) -> str:
     tree = ast.parse(src)
     try:
@@ -176,7 +211,7 @@ def transform(kind: str, src: str, filename: str) -> str:
     if kind == "rename":
         return rename_locals(src, filename)
     tree = ast.parse(src)
-    tree = {"flipcmp": FlipCmp, "ifswap": IfSwap, "nestand": NestAnd, "retlocal": RetLocal, "augassign": AugToAssign, "isnot": IsNot}[kind]().visit(tree)
+    tree = {"flipcmp": FlipCmp, "ifswap": IfSwap, "nestand": NestAnd, "retlocal": RetLocal, "augassign": AugToAssign, "isnot": IsNot, "kwargs": KwArgs}[kind]().visit(tree)
     ast.fix_missing_locations(tree)
     return ast.unparse(tree)
 
